@@ -20,6 +20,7 @@ import (
 	"fmt"
 	"strings"
 
+	"github.com/cosmos72/gomacro/fast"
 	"verifh/vh"
 )
 
@@ -61,8 +62,23 @@ func stdImplements(t stdType, ifc string) bool {
 	return ifc == "interface{}" || contains(t.impl, ifc)
 }
 
+// stdNilMultiBroken: canary of the proposed finding corpus:typeswitch-nil-multitype-clause-with-interface (exact input in
+// corpus/C09/19-*.json, fix in fixes/C09-9.diff): a NIL value switched over a clause listing several types one of which
+// is an interface type panics in reflect.  While it reproduces, nil values get single-type clauses only.
+func stdNilMultiBroken() bool {
+	ir := fast.New()
+	if _, e := evalStr(ir, "import \"fmt\""); e != nil {
+		return true
+	}
+	if _, e := evalStr(ir, "func canary() string { var e interface{}; switch e.(type) { case fmt.Stringer, float64: return \"c0\" }; return \"none\" }"); e != nil {
+		return true
+	}
+	out, e := evalStr(ir, "canary()")
+	return e != nil || out != "none"
+}
+
 // genStdCaseProg returns a program without hierarchy (differential against go/types + compiled Go only)
-func genStdCaseProg(r *vh.Rng, name string, nSites int) *Prog {
+func genStdCaseProg(r *vh.Rng, name string, nSites int, avoidNilMulti bool) *Prog {
 	p := &Prog{Name: name, Comment: "type switches over compiled concrete types and the compiled interfaces they implement",
 		Imports: []string{"bytes", "io", "os", "strings", "time"}}
 	p.Types = append(p.Types, "type stdMark struct{}")
@@ -159,6 +175,9 @@ func genStdCaseProg(r *vh.Rng, name string, nSites int) *Prog {
 			nt := 1
 			if r.Chance(1, 4) && (plain || !bind) {
 				nt = 2 + r.Intn(2)
+			}
+			if nilVal && avoidNilMulti {
+				nt = 1
 			}
 			var ts []string
 			for ; nt > 0 && ci < len(cand); nt-- {
